@@ -27,6 +27,9 @@ import (
 type FaceSpec struct {
 	Kind string `json:"k"`             // unix | tcp | udp
 	MTU  int    `json:"mtu,omitempty"` // udp: MTU set on the transport (0: the default, 8800)
+	// udp: > MTU: the harness, as the peer, sends frames of up to this size to the face (a face's MTU
+	// bounds what it sends; its peer may have a larger one). 0: the harness keeps to the face's MTU.
+	PeerMTU int `json:"pmtu,omitempty"`
 	// stream faces: the harness writes what is pending on the socket in pieces of these sizes, cycled
 	// (0 or more than is pending: all that is pending); empty: everything pending in one write
 	Chunks []int `json:"ch,omitempty"`
@@ -190,6 +193,12 @@ func genCase(profile string) func(t *rapid.T) Case {
 			}
 			if fs.Kind == "udp" {
 				fs.MTU = genMTU(t, l+"-mtu")
+				if fs.MTU > 0 && fs.MTU < maxPacket && rapid.IntRange(0, 2).Draw(t, l+"-pmtuq") == 0 {
+					pm := rapid.SampledFrom([]int{fs.MTU + 1, 1500, 4000, maxPacket}).Draw(t, l+"-pmtu")
+					if pm > fs.MTU {
+						fs.PeerMTU = pm
+					}
+				}
 				fs.Ord = rapid.SampledFrom([]int{0, 0, 1, 2, 3, 7, 12}).Draw(t, l+"-ord")
 				if rapid.Bool().Draw(t, l+"-slack") {
 					fs.Slack = rapid.IntRange(1, 40).Draw(t, l+"-sl")
@@ -500,6 +509,7 @@ func exec(profile string) func(Case) evid.Result {
 		cl(st.fwdFragPkts > 0, "forwarder-fragmented")
 		cl(st.fwdFragMax >= 10, "forwarder-fragmented-10+")
 		cl(st.harFragPkts > 0, "harness-fragmented")
+		cl(st.aboveFaceMTU > 0, "frames-larger-than-the-receiving-face's-mtu")
 		cl(udpNT, "fragmented-both-directions")
 		cl(st.reordered > 0, "fragments-sent-out-of-order")
 		cl(st.exactMTU > 0, "frame-of-exactly-the-mtu")
@@ -538,7 +548,7 @@ const ruleCommon = "a complete forwarder (real unix/tcp/udp transports over real
 
 const (
 	rule11 = ruleCommon + "C11 profile: unix and tcp faces; the harness's writes are cut by a chunk script (1..5 bytes, about a block, several blocks, large) with Gosched/microsecond pauses. Non-trivial: >= 1 exchange completed end to end AND >= 1 harness write ended inside a TLV block."
-	rule10 = ruleCommon + "C10 profile: udp faces, MTU 128..8800 biased small; the harness fragments what it sends (payload slack, fragments in order / reversed / round robin / shuffled). Non-trivial: >= 1 exchange completed end to end AND >= 1 packet fragmented by the forwarder AND >= 1 by the harness."
+	rule10 = ruleCommon + "C10 profile: udp faces, MTU 128..8800 biased small; the harness fragments what it sends - to the face's MTU, or to a larger MTU of its own - (payload slack, fragments in order / reversed / round robin / shuffled). Non-trivial: >= 1 exchange completed end to end AND >= 1 packet fragmented by the forwarder AND >= 1 by the harness."
 	rule01 = ruleCommon + "C01 profile: 3..5 faces of mixed kinds, 1..3 threads, best-route or multicast. Non-trivial: >= 1 exchange completed end to end AND (a harness write ended inside a TLV block OR packets were fragmented in both directions)."
 )
 
